@@ -3,7 +3,7 @@ from cfg_C04 import T_PLY
 
 CFG = dict(
     theorems=["ply_offset_is_prefix_sum", "ply_column_is_header_index", "ply_spec_field_any_layout", "ply_spec_field_value",
-              "ply_spec_vertex_block", "ply_unclaimed_property_gets_reader", "ply_unclaimed_reader_located",
+              "ply_spec_vertex_block", "ply_group_reader_located", "ply_group_columns_any_permutation", "ply_unclaimed_property_gets_reader", "ply_unclaimed_reader_located",
               "ply_header_line_lf_crlf", "ply_reader_quad_fan", "ply_reader_triangle", "ply_reader_face_other",
               "ply_mixed_type_group_not_claimed", "ply_ascii_int_through_float32", "ply_ascii_int_through_float32_concrete",
               "ply_ascii_uchar_scalar_not_normalised", "ply_ascii_uchar_scalar_not_normalised_concrete"],
@@ -13,7 +13,7 @@ CFG = dict(
     trusted=T_PLY + ["the independent Go reference encoder in c08.go produces the bytes fed to ply.ReadMesh; c08.encode checks on every case that the Lean refEncode yields the same bytes"],
     residue=["ply_reads_spec_full (readMesh (refEncode f) = meaning f for every guarded SpecFile) is a def … : Prop, NOT a theorem, and no partial end-to-end version (header text → mesh) is proved; on every generated SpecFile the oracle c08.holds.meaning checks that ply.ReadMesh's result equals `meaning f` and c08.read that the model reader agrees with ply.ReadMesh",
              "proved for all inputs, over the REFERENCE encoding: field decoding at the header-computed offset for any property order/type mix (ply_spec_field_any_layout), value = Datum.val for representable data, the whole binary vertex block under the vertex loop for any list of located readers (ply_spec_vertex_block), an unrecognised property gets its own located scalar reader through addUnclaimed; scalar-reader location arithmetic (binary prefix sums, ASCII column); LF/CRLF line reading; quad/triangle emission with per-corner UVs",
-             "NOT proved (modelled and corresponded only): that the 2-/3-/4-vector claim scan buildVec yields a Located reader (the S2 sensitivity trial lives there) — ply_spec_vertex_block takes Located as a hypothesis; header keyword parsing from bytes (aliases, comments, element/property lines); the face loop over list properties; UpdateMesh/unweld assembly and its equality with `meaning`; the ASCII encoding",
+             "the vector claim scan buildVec IS proved to yield a Located reader for any permutation under the uniform-type guard (ply_group_reader_located; the S2 sensitivity trial lives there) and feeds ply_spec_vertex_block; NOT proved (modelled and corresponded only): the IgnorableW fallback / buildAll composition; header keyword parsing from bytes (aliases, comments, element/property lines); the face loop over list properties; UpdateMesh/unweld assembly and its equality with `meaning`; the ASCII encoding",
              "all theorems hold for an ARBITRARY `Coding α` (the bundle has no laws): they speak about decode∘encode of that coding (datumRead); `Datum.Exact` / `ply_spec_field_value` is where representability enters",
              "guards of the grammar the generators stay inside (each violated by the unchanged tree, see witnesses): one scalar type inside a recognised group; ASCII values exactly representable in float32; no 8-bit unrecognised scalar in ASCII; at least one face when a face element is declared; no uchar s/t pair (vector2.DivByConstant multiplies by 1/255: 1 ulp off b/255)",
              "SpecFile fixes the element order vertex, face and has no other elements (the reader ignores header element order and reads vertex data first); face element holds list properties only",
